@@ -64,8 +64,14 @@ func (f *Filter) IsAllowed(res Resource) bool {
 		// typ string
 	)
 
-	if _, ok := res.Attrs()[f.Field]; ok {
+	if attr, ok := res.Attrs()[f.Field]; ok {
 		val = res.Get(f.Field)
+
+		// A nil nullable value may be returned as an untyped nil (Wrapper
+		// does); compare it as the typed nil pointer of its kind.
+		if val == nil && attr.Nullable {
+			val = GetZeroValue(attr.Type, attr.Nullable)
+		}
 	}
 
 	if rel, ok := res.Rels()[f.Field]; ok {
